@@ -385,7 +385,9 @@ def job_ellipsoids(ctx):
     ecef2enu / enu2ecef / geodetic2enu): same round trips on other ellipsoids."""
     import math
     from ahrs.common import frames as FR
-    ELL = [('Clarke1866', 6378206.4, 6356583.8), ('Bessel1841', 6377397.155, 6356078.963), ('Mars', 3396190.0, 3376200.0), ('sphere', 6371000.0, 6371000.0)]
+    ELL = [('Clarke1866', 6378206.4, 6356583.8), ('Bessel1841', 6377397.155, 6356078.963), ('Mars', 3396190.0, 3376200.0), ('sphere', 6371000.0, 6371000.0),
+           # only ONE of the two radii differs from the defaults (WGS84 a = 6378137.0, b = 6356752.3142): both must still be honoured
+           ('WGS84 a, sphere b', 6378137.0, 6378137.0), ('WGS84 a, other b', 6378137.0, 6356000.0), ('other a, WGS84 b', 6378388.0, 6356752.3142), ('WGS84 (explicit)', 6378137.0, 6356752.3142)]
     for en, a, b in ELL:
         e2 = (a * a - b * b) / (a * a)
         for lat in (-89.0, -45.0, -10.0, 0.0, 23.5, 60.0, 90.0):
@@ -398,6 +400,11 @@ def job_ellipsoids(ctx):
                     try:
                         X = np.asarray(FR.geodetic2ecef(lat, lon, h, a, b), float)
                         ctx.close(X, ref, 1e-6, 'geodetic2ecef(lat, lon, h, a, b) = closed form on that ellipsoid', key)
+                        if a == 6378137.0:        # the same ellipsoid reached through the keyword b alone (a left at its default)
+                            Xk = np.asarray(FR.geodetic2ecef(lat, lon, h, b=b), float)
+                            ctx.close(Xk, ref, 1e-6, 'geodetic2ecef(lat, lon, h, b=b) = closed form on that ellipsoid', key)
+                            bk = np.asarray(FR.ecef2geodetic(X[0], X[1], X[2], b=b), float)
+                            ctx.expect(abs(bk[0] - lat) <= 1e-7 and abs(bk[2] - h) <= 1e-3, 'geodetic -> ECEF -> ecef2geodetic(b=b) returns the point', key, bk, [lat, lon, h], 1e-3)
                         for fn_name in ('ecef2geodetic', 'ecef2lla'):
                             back = np.asarray(getattr(FR, fn_name)(X[0], X[1], X[2], a, b), float)
                             dlon = ((back[1] - lon + 180.0) % 360.0 - 180.0) * math.cos(math.radians(lat)) if abs(lat) < 90 else 0.0
